@@ -911,6 +911,9 @@ def execute(trace) -> CaseResult:
     def describe_content(name, n, uid, tag, norm, exp, sig):
         mt = _TAG_RE.search(norm[:2000])
         got_tag = mt.group(1).decode() if mt else None
+        if tag is None:
+            mt2 = _TAG_RE.search(exp[:2000])
+            tag = mt2.group(1).decode() if mt2 else None
         if got_tag != tag:
             v("C20.retr.content", f"session {name}: 'RETR {n}' (UIDL {uid}, message {tag}) delivered message {got_tag}", "other-message" + (":" + sig if sig else ""))
             return
